@@ -16,11 +16,21 @@
     the 66 prefix); for ALL operands and states: movzx yields the source's value, movsx its sign extension (bit level), not the
     one's complement, push/pop move esp by the operand size modulo 2^32, pop to a memory operand addressed through esp uses the
     incremented esp, cmc complements cf.
-    af is refuted (known finding: the formula is pinned by tests/test_emul.py).  Everything else of the integer core (shifts,
-    rotates, mul/div, string, other control transfers ...) is decided by evaluating the regenerated IR with the
+    Shifts and rotates (sal = shl, shr, sar, rol, ror), VALUE only: in every regenerated form the destination is assigned the mirror
+    SemShift.shift_val of the dumped operands, and for ALL operands and states that value is the processor's — x * 2^c mod 2^n,
+    x / 2^c, the arithmetic shift of the signed reading, the bit rotation — with the count masked to five bits (c = count mod 32,
+    counts >= n included).  The FLAGS of this group are not theorems (several are known findings).
+    Near control transfers with 32-bit operand size (call ret leave jmp): each regenerated list is the mirror SemCtl.mirror_ctl of the
+    dumped operands and next-instruction address (return address pushed at esp - 4, eip := target; eip := [esp], esp + 4 + imm;
+    ebp := [ebp], esp := ebp + 4), stack-pointer arithmetic modulo 2^32.
+    String moves (movs stos lods; byte / word / dword, 16- and 32-bit addressing): each regenerated list is the mirror SemStr.mirror_str
+    of the dumped operands; the pointer registers move by the element size, down when df is set, modulo the pointer width.
+    lahf / sahf: the regenerated lists are the mirror; ah receives SF:ZF:0:AF:0:PF:1:CF and each flag receives its bit of ah.
+    af is refuted (known finding: the formula is pinned by tests/test_emul.py).  Everything else of the integer core (flags of
+    shifts and rotates, rcl/rcr, double shifts, mul/div, string, other control transfers ...) is decided by evaluating the regenerated IR with the
     extracted Expr.eval against the SDM reference (harness/p_c04.py), not by a theorem. *)
 From Coq Require Import ZArith List Bool String.
-From Mx Require Import Expr Wf Sem SemProofs SemFacts SemCC SemCCProofs SemCCFacts SemMov SemMovProofs SemMovFacts.
+From Mx Require Import Expr Wf Sem SemProofs SemFacts SemCC SemCCProofs SemCCFacts SemMov SemMovProofs SemMovFacts SemShift SemShiftProofs SemShiftFacts SemCtl SemCtlProofs SemCtlFacts SemStr SemStrProofs SemStrFacts SemFlagMove SemFlagMoveFacts.
 From MxGen Require Import LiftAll.
 Import ListNotations.
 Open Scope Z_scope.
@@ -192,6 +202,74 @@ Theorem C04_cmc : forall rho mu iota, eval rho mu iota (ECond (flag "cf") (i1 0)
 Proof. exact cmc_value. Qed.
 Print Assumptions C04_cmc.
 
+(** shifts and rotates: the value assigned to the destination *)
+Theorem C04_shift_forms_are_the_mirror : forall sh c k l, In sh shards -> In c sh -> sh_of (lc_mnemo c) = Some k -> lc_lift c = Some l ->
+  is_shift_mirror k (lc_args c) l = true.
+Proof. exact shift_forms_lifted. Qed.
+Print Assumptions C04_shift_forms_are_the_mirror.
+
+Theorem C04_tied_shift_means_mirror : forall k args l, is_shift_mirror k args l = true ->
+  exists a b x, args = [a; b] /\ last_expr l = Some x /\ operand_ok a = true /\ operand_ok b = true /\ (size a = 8 \/ size a = 16 \/ size a = 32) /\
+    forall rho mu iota, eval rho mu iota x = eval rho mu iota (mk_aff a (shift_val k a b)).
+Proof. exact is_shift_mirror_sound. Qed.
+Print Assumptions C04_tied_shift_means_mirror.
+
+Theorem C04_shl_shr_sar_values : forall rho mu iota a b, operand_ok a = true -> operand_ok b = true -> (size b = 8 \/ size b = 16 \/ size b = 32) ->
+  let n := size a in let x := eval rho mu iota a in let c := count rho mu iota b in
+  eval rho mu iota (shift_val Sal a b) = (x * 2 ^ c) mod 2 ^ n /\
+  eval rho mu iota (shift_val Shr a b) = x / 2 ^ c /\
+  eval rho mu iota (shift_val Sar a b) = (sgnv n x / 2 ^ c) mod 2 ^ n.
+Proof. intros rho mu iota a b Oa Ob Sb. split; [apply shl_value | split; [apply shr_value | apply sar_value]]; assumption. Qed.
+Print Assumptions C04_shl_shr_sar_values.
+
+Theorem C04_rol_ror_bits : forall rho mu iota a b, operand_ok a = true -> operand_ok b = true -> forall i, 0 <= i < size a ->
+  Z.testbit (eval rho mu iota (shift_val Rol a b)) i = Z.testbit (eval rho mu iota a) ((i - eval rho mu iota b mod size a) mod size a) /\
+  Z.testbit (eval rho mu iota (shift_val Ror a b)) i = Z.testbit (eval rho mu iota a) ((i + eval rho mu iota b mod size a) mod size a).
+Proof. intros rho mu iota a b Oa Ob i Hi. split; [apply rol_bits | apply ror_bits]; assumption. Qed.
+Print Assumptions C04_rol_ror_bits.
+
+(** near control transfers (32-bit operand size) *)
+Theorem C04_control_transfer_forms_are_the_mirror : forall sh c k l, In sh shards -> In c sh -> ctl_of (lc_mnemo c) = Some k -> lc_lift c = Some l ->
+  mirror_ctl k (lc_o16 c) (lc_next c) (lc_args c) = None \/
+  exists m, mirror_ctl k (lc_o16 c) (lc_next c) (lc_args c) = Some m /\ forall rho mu iota, map (eval rho mu iota) l = map (eval rho mu iota) m.
+Proof. exact ctl_forms_lifted. Qed.
+Print Assumptions C04_control_transfer_forms_are_the_mirror.
+
+Theorem C04_call_ret_leave_stack_pointer : forall rho mu iota,
+  eval rho mu iota (EOp "+" [esp; EInt false 32 4294967292]) = (rho "esp" - 4) mod 2 ^ 32 /\
+  (forall a, 0 < size a -> eval rho mu iota (EOp "+" [esp; EOp "+" [EInt false 32 4; a]]) = (rho "esp" + 4 + eval rho mu iota a) mod 2 ^ 32) /\
+  eval rho mu iota (EOp "+" [EInt false 32 4; ebp]) = (rho "ebp" + 4) mod 2 ^ 32.
+Proof. intros rho mu iota. split; [apply call_esp | split; [intros a Ha; apply ret_esp; exact Ha | apply leave_esp]]. Qed.
+Print Assumptions C04_call_ret_leave_stack_pointer.
+
+(** the mirror of `call eax` at 0x1000 (2 bytes) *)
+Example C04_call_mirror : mirror_ctl Call false 4098 [EId "eax" 32 true false] =
+  Some [EAff esp (EOp "+" [esp; EInt false 32 4294967292]); EAff (EMem (EOp "+" [esp; EInt false 32 4294967292]) 32 None) (EInt false 32 4098); EAff eip (EId "eax" 32 true false)].
+Proof. reflexivity. Qed.
+
+(** string moves *)
+Theorem C04_string_move_forms_are_the_mirror : forall sh c k l, In sh shards -> In c sh -> str_of (lc_mnemo c) = Some k -> lc_lift c = Some l ->
+  exists m, mirror_str k (lc_args c) = Some m /\ forall rho mu iota, map (eval rho mu iota) l = map (eval rho mu iota) m.
+Proof. exact str_forms_lifted. Qed.
+Print Assumptions C04_string_move_forms_are_the_mirror.
+
+Theorem C04_string_pointer_update : forall rho mu iota p off, operand_ok p = true -> 0 <= off < 2 ^ size p ->
+  eval rho mu iota (ptr_next p off) = if Z.odd (rho "df") then (eval rho mu iota p - off) mod 2 ^ size p else (eval rho mu iota p + off) mod 2 ^ size p.
+Proof. exact ptr_next_value. Qed.
+Print Assumptions C04_string_pointer_update.
+
+(** lahf / sahf *)
+Theorem C04_lahf_sahf_forms_are_the_mirror : forall sh c m l, In sh shards -> In c sh -> flagmove_mirror (lc_mnemo c) = Some m -> lc_lift c = Some l ->
+  forall rho mu iota, map (eval rho mu iota) l = map (eval rho mu iota) m.
+Proof. exact flagmove_forms_lifted. Qed.
+Print Assumptions C04_lahf_sahf_forms_are_the_mirror.
+
+Theorem C04_lahf_sahf_meaning : forall rho mu iota,
+  eval rho mu iota lahf_src = fbit rho "cf" + 2 + 4 * fbit rho "pf" + 16 * fbit rho "af" + 64 * fbit rho "zf" + 128 * fbit rho "nf" /\
+  forall k, 0 <= k < 8 -> eval rho mu iota (ESlice ah k (k + 1)) = Z.b2z (Z.testbit (rho "eax") (8 + k)).
+Proof. intros rho mu iota. split; [apply lahf_value | intros k Hk; apply sahf_bit; exact Hk]. Qed.
+Print Assumptions C04_lahf_sahf_meaning.
+
 (** the mirror lays the assignments out as the lifter does *)
 Example C04_mirror_layout : forall a b, let c := alu_val Add a b in
   mirror Add a b = [upd_zf c; upd_nf c; upd_pf c; upd_af c; EAff (flag "cf") (add_cf_src a b c); EAff (flag "of") (add_of_src a b c); mk_aff a c].
@@ -216,3 +294,11 @@ Proof. exact many_mv_forms. Qed.
 Example C04_pop_mirror : mirror_mv Pop [EMem (EOp "+" [esp; EInt false 32 4]) 32 None] =
   Some [EAff esp (EOp "+" [esp; EInt false 32 4]); EAff (EMem (EOp "+" [EOp "+" [esp; EInt false 32 4]; EInt false 32 4]) 32 None) (EMem esp 32 None)].
 Proof. reflexivity. Qed.
+Example C04_shift_nonvacuous : (500 <= n_sh)%nat.
+Proof. exact many_shift_forms. Qed.
+Example C04_ctl_nonvacuous : (40 <= n_ctl)%nat.
+Proof. exact many_ctl_forms. Qed.
+Example C04_str_nonvacuous : (12 <= n_str)%nat.
+Proof. exact many_str_forms. Qed.
+Example C04_flagmove_nonvacuous : (4 <= n_fm)%nat.
+Proof. exact some_flagmove_forms. Qed.
